@@ -1,7 +1,7 @@
 From Coq Require Import String.
-From TlsModel Require Import GenBase Show Main GenTls GenKx GenExt.
+From TlsModel Require Import GenBase Show Main GenTls GenKx GenExt GenDtls.
 
-Definition all_families : list (string * G (list case)) := families_tls ++ families_kx ++ families_ext.
+Definition all_families : list (string * G (list case)) := families_tls ++ families_kx ++ families_ext ++ families_dtls.
 
 Fixpoint find_family (name : list byte) (l : list (string * G (list case))) : option (G (list case)) :=
   match l with
